@@ -236,6 +236,10 @@ class Verdict:
         self.t0 = time.time()
 
     def add_violation(self, key, what, obligation=None, verifier_output=None, counterexample=None, expected=None, actual=None):
+        if "harness:" in key:
+            # the harness could not do its job (environment, scratch file system, missing document ...): never an alarm
+            self.add_undecided("harness problem %s: %s" % (key, what[:300]))
+            return
         k = match_known(self.prop, key)
         rec = {"key": key, "what": what, "obligation": obligation, "verifier_output": verifier_output,
                "counterexample": counterexample, "expected": expected, "actual": actual}
